@@ -116,6 +116,9 @@ pub fn check_feasible_set(case: &ModelCase, max_points: usize) -> Outcome {
         Ok(m) => m,
         Err(e) => return Outcome::Skip(format!("rejected:{}", err_kind(&e))),
     };
+    if case.has_constant_row_decided_by_rounding() {
+        return Outcome::Skip("a constant row is decided by f64 rounding".into());
+    }
     let lc = LinCase::from_rooc(&lin);
     let pts = test_points(case, max_points);
     let (mut nf, mut ni) = (0usize, 0usize);
